@@ -113,7 +113,8 @@ func drawInjections(r *fw.Rand, src []byte, k int) []string {
 			off = t.end
 		}
 		id := "c" + string(rune('0'+i))
-		out = append(out, fmt.Sprintf("%d|%s", off, fw.Pick(r, []string{"/*" + id + "*/", " /*" + id + "*/ ", "//" + id + "\n", " // " + id + "\n", "#" + id + "\n", "/*" + id + "\n" + id + "*/"})))
+		long := strings.Repeat(string(rune('a'+i)), 50+r.Intn(60))
+		out = append(out, fmt.Sprintf("%d|%s", off, fw.Pick(r, []string{"/*" + id + "*/", " /*" + id + "*/ ", "//" + id + "\n", " // " + id + "\n", "#" + id + "\n", "/*" + id + "\n" + id + "*/", "/*" + id + " " + long + "*/", " /* " + id + " " + long + " */ "})))
 	}
 	return out
 }
